@@ -153,6 +153,9 @@ struct FinInfo {
     prev_root: [u8; 32],
     root: [u8; 32],
     chain: Vec<usize>,
+    /// how many times the committed root had changed when the session was finished: a commit accepted at another count found its
+    /// base root RESTORED (by a rollback, or by commits writing the old values back) — an "ABA" commit (known finding F27)
+    seqn_at_finish: u32,
 }
 
 /// Boundary of one state-changing API call (commit, overlay commit, rollback, open): reported to an
@@ -260,6 +263,10 @@ pub struct Engine<'a> {
     pub pool: Vec<Key>,
     next_sid: usize,
     pub big: bool,
+    /// set after an accepted "ABA" commit (known finding F27): no further operations in this history
+    pub aba_stop: bool,
+    root_epoch: u32,
+    last_root: [u8; 32],
     pub scale: usize,
     pub always_preserve: bool,
     pub no_dread: bool,
@@ -306,6 +313,9 @@ impl<'a> Engine<'a> {
             pool: vec![],
             next_sid: 0,
             big,
+            aba_stop: false,
+            root_epoch: 0,
+            last_root: [0u8; 32],
             scale: 1,
             always_preserve: false,
             no_dread: false,
@@ -390,6 +400,14 @@ impl<'a> Engine<'a> {
         drop(g);
         if !starting {
             self.op_index += 1;
+            // root epoch: how many times the committed root has CHANGED so far (for the ABA test of known finding F27)
+            if let Some(d) = self.db.as_ref() {
+                let r = d.root().into_inner();
+                if r != self.last_root {
+                    self.last_root = r;
+                    self.root_epoch += 1;
+                }
+            }
         }
     }
 
@@ -823,7 +841,7 @@ impl<'a> Engine<'a> {
                         None => self.out.fail("C06 witness mode enabled but no witness produced".into()),
                     }
                 }
-                self.fins.push(FinInfo { fin: Some(fin), writes, view_after, prev_root, root, chain: chain.to_vec() });
+                self.fins.push(FinInfo { fin: Some(fin), writes, view_after, prev_root, root, chain: chain.to_vec(), seqn_at_finish: self.root_epoch });
                 self.ev("finished_sessions");
                 Some(fid)
             }
@@ -925,6 +943,19 @@ impl<'a> Engine<'a> {
                 if !expect_ok {
                     self.out.fail(format!("C12 stale changeset accepted: {op}"));
                 }
+                if self.fins[fid].chain.is_empty() && self.fins[fid].seqn_at_finish != self.root_epoch {
+                    // F27 (known finding): the changeset was prepared on this very root, but commits and rollbacks happened in between
+                    // ("ABA"): the root check passes, yet the changeset still carries the hash-table BUCKET indices of the pages as
+                    // they were stored when the session read them; the intervening commit + rollback may have moved those pages, and
+                    // writing to the stale buckets corrupts the table (a later operation panics in `seek.rs` on a page that is not found).
+                    // The history is ended here: the acceptance itself is what the finding names.
+                    self.out.fail(format!(
+                        "C12 F27 ABA commit accepted: the committed root changed {} time(s) and was restored between the end of the session and the commit of its changeset ({op})",
+                        self.root_epoch - self.fins[fid].seqn_at_finish
+                    ));
+                    self.ev("aba_commit_accepted_history_ended");
+                    self.aba_stop = true;
+                }
                 self.push_snapshot();
                 self.committed = self.fins[fid].view_after.clone();
                 if !self.fins[fid].chain.is_empty() {
@@ -996,7 +1027,7 @@ impl<'a> Engine<'a> {
                     self.out.fail("C02 a session without writes changed the root".into());
                 }
                 self.out.line(op, hex(&root));
-                self.fins.push(FinInfo { fin: Some(fin), writes: vec![], view_after: view, prev_root, root, chain: vec![] });
+                self.fins.push(FinInfo { fin: Some(fin), writes: vec![], view_after: view, prev_root, root, chain: vec![], seqn_at_finish: self.root_epoch });
                 self.ev("write_free_commits");
                 let nb = self.rng.chance(1, 4);
                 self.commit_fin(fid, nb);
@@ -1537,7 +1568,7 @@ impl<'a> Engine<'a> {
     }
 
     pub fn step(&mut self, weights: &[(usize, &str)]) {
-        if !self.alive() {
+        if !self.alive() || self.aba_stop {
             return;
         }
         // scripted (directed) histories for the crash / fault checks
